@@ -167,4 +167,39 @@ pub fn hcalc_reducer_small(s: &mut Src) -> R {
     Ok(())
 }
 
-crate::harness_table!(HCALC: hcalc_small, hcalc_schur_small, hcalc_triang_small, hcalc_reducer_small);
+// C12 (block splitting) — witness search / replay for the Verus unit `decomp` on the real crate: dir_sum_decomp of small sparse integer
+// matrices.  The permuted matrix is the block-diagonal sum of the returned blocks (plus zero rows / columns), and the number of non-empty
+// blocks is the number of connected components of the row/column incidence graph (so two columns sharing a row are never separated and
+// the splitting is as fine as possible).
+pub fn hcalc_decomp_small(s: &mut Src) -> R {
+    use yui_matrix::sparse::decomp::dir_sum_decomp;
+    let m = s.small(1, 6) as usize;
+    let n = s.small(1, 6) as usize;
+    let mut e = vec![0i64; m * n];
+    for x in e.iter_mut() { let k = s.small(-8, 8); *x = if k.abs() > 2 { 0 } else { k }; }
+    reach!();
+    let a = SpMat::from_dense_data((m, n), e.clone());
+    let (p, q, blocks) = dir_sum_decomp(a.clone());
+    let b = a.permute(p.view(), q.view()).into_dense();
+    let (mut r0, mut c0) = (0usize, 0usize);
+    let mut covered = vec![vec![false; n]; m];
+    for blk in blocks.iter() {
+        let (bm, bn) = blk.shape();
+        ob!(r0 + bm <= m && c0 + bn <= n, "dir_sum_decomp::blocks-fit");
+        let d = blk.clone().into_dense();
+        for i in 0..bm { for j in 0..bn { ob!(b[(r0 + i, c0 + j)] == d[(i, j)], "dir_sum_decomp::P.A.Q==sum-of-blocks(on-the-blocks)"); covered[r0 + i][c0 + j] = true; } }
+        r0 += bm; c0 += bn;
+    }
+    for i in 0..m { for j in 0..n { if !covered[i][j] { ob!(b[(i, j)] == 0, "dir_sum_decomp::P.A.Q==sum-of-blocks(zero-outside)"); } } }
+    // connected components of the incidence graph (non-empty columns only), independently
+    let mut comp: Vec<usize> = (0..n).collect();
+    fn find(c: &mut Vec<usize>, x: usize) -> usize { let mut x = x; while c[x] != x { x = c[x]; } x }
+    for i in 0..m { let js: Vec<usize> = (0..n).filter(|&j| e[i * n + j] != 0).collect(); for w in js.windows(2) { let (x, y) = (find(&mut comp, w[0]), find(&mut comp, w[1])); if x != y { comp[x] = y; } } }
+    let nonempty: Vec<usize> = (0..n).filter(|&j| (0..m).any(|i| e[i * n + j] != 0)).collect();
+    let mut roots: Vec<usize> = nonempty.iter().map(|&j| find(&mut comp, j)).collect(); roots.sort(); roots.dedup();
+    let nb = blocks.iter().filter(|b| !b.is_zero()).count();
+    if !nonempty.is_empty() { ob!(nb == roots.len(), "dir_sum_decomp::blocks==connected-components"); }
+    Ok(())
+}
+
+crate::harness_table!(HCALC: hcalc_small, hcalc_schur_small, hcalc_triang_small, hcalc_reducer_small, hcalc_decomp_small);
